@@ -76,3 +76,21 @@ Proof.
   intros prefix progs complete H root. rewrite walk_refines.
   apply (glob_walk_yields prefix progs complete (fun _ => True) (fun rel _ => H rel) root 0 []). intros; exact I.
 Qed.
+
+(* ---- C15: the depth window of a glob walk with a prefix ---------------------------------------------------------------------- *)
+(* every entry a glob walk produces lies inside the configured window, measured from the directory given to the walk: its
+   depth is the number of prefix components (the pivot) plus its depth below the directory the walk starts at.  The upper
+   bound holds when the window reaches the pivot at all (below it the implementation still yields the starting directory:
+   the known class max_below_prefix). *)
+Theorem glob_walk_in_window : forall root prefix_text mind maxd progs complete rest e t s,
+  In (REntry e t s) (glob_walk root prefix_text mind maxd progs complete rest) ->
+  let pivot := length (split_components prefix_text) in
+  mind <= pivot + length (e_path e) /\
+  match maxd with Some m => pivot <= m -> pivot + length (e_path e) <= m | None => True end.
+Proof.
+  intros root prefix_text mind maxd progs complete rest e t s H pivot. unfold glob_walk, window_at_pivot in H. fold pivot in H.
+  rewrite walk_refines in H. unfold walk_spec in H.
+  apply entries_in_window in H; [|destruct maxd; reflexivity].
+  destruct H as [k [Hl [Hm Ho]]]. cbn [length Nat.add] in *. rewrite Hl. split; [lia|].
+  destruct maxd as [m|]; [|exact I]. intros Hp. cbn [over] in Ho. apply Nat.ltb_ge in Ho. lia.
+Qed.
